@@ -17,8 +17,9 @@ def run(ctx):
     return ctx.finish(
         rule="one-member archives of each of the 14 methods x levels 0-2: EVERY value of the recorded CRC field (65536; quick: one level per method), recorded length {0,1,n-1,n,n+1,2n,2^32-1} and prefix-consistent (length, CRC) pairs, data truncated at every byte, all 255 substitutions of every compressed byte; "
              "stored member of 3 (thorough 6) bytes: every burst of 1..16 flipped bits at every bit offset; plus the truncation clause on the 8 multi-member archives at every cut (space 'kinds'). Oracle: good <=> produced length and CRC equal the recorded ones; damaged stored members and truncated members are always bad. non-trivial = distinct perturbation classes",
-        replay_fn=lambda rep: runner.replay_explorer(rep, quiet=True))
+        replay_fn=lambda rep: (__import__('vlib.cliprop', fromlist=['x']).replay_case(rep) if rep.get('kind') == 'cli' else runner.replay_explorer(rep, quiet=True)))
 
 
 def replay(rep):
-    return runner.replay_explorer(rep)
+    from vlib import cliprop
+    return cliprop.replay_case(rep) if rep.get('kind') == 'cli' else runner.replay_explorer(rep)
